@@ -33,6 +33,7 @@ type kase struct {
 	UI      *ans   `json:"userinfo_answer,omitempty"`
 	UIB     string `json:"userinfo_body,omitempty"`
 	IDSegs  int    `json:"id_token_segments,omitempty"`
+	PClass  string `json:"input_class,omitempty"` // class of the hostile input, used to name a crash
 	Skip    string `json:"-"`
 	descKey string
 
@@ -254,7 +255,45 @@ var atNames = []string{"absent", "empty", "null", "number", "bool", "array", "ob
 var fieldVariants = []pair{{"expires_in", `"3600"`}, {"expires_in", "null"}, {"expires_in", "3600.5"}, {"expires_in", "-1"},
 	{"expires_in", "1e400"}, {"expires_in", absent}, {"refresh_token", "7"}, {"refresh_token", "null"}, {"refresh_token", absent},
 	{"token_type", "5"}, {"token_type", absent}, {"scope", `["openid"]`}}
-var rawIDT = []string{absent, `""`, "null", "5", "true", `["a.b.c"]`, `{"payload":"a.b.c"}`, `"."`, `".."`, `"..."`, `"...."`, `"x."`, `".x"`, `"x"`}
+
+// raw id_token values: name, raw JSON, number of '.'-separated segments (-1: not a string), what google must say
+type rawID struct {
+	name, raw string
+	segs      int
+	clause    string
+}
+
+const lt2 = "id_token-segments<2"
+
+var rawIDT = []rawID{
+	{"absent", absent, 0, lt2}, {"empty", `""`, 0, lt2}, {"null", "null", 0, lt2},
+	{"number", "5", -1, "token-field-mistyped"}, {"bool", "true", -1, "token-field-mistyped"},
+	{"array", `["a.b.c"]`, -1, "token-field-mistyped"}, {"object", `{"payload":"a.b.c"}`, -1, "token-field-mistyped"},
+	{"dot", `"."`, 2, "id_token-payload-malformed"}, {"2dots", `".."`, 3, "id_token-payload-malformed"},
+	{"3dots", `"..."`, 4, "id_token-payload-malformed"}, {"4dots", `"...."`, 5, "id_token-payload-malformed"},
+	{"x-dot", `"x."`, 2, "id_token-payload-malformed"}, {"dot-x", `".x"`, 2, "id_token-bad-base64"},
+	{"x", `"x"`, 1, lt2}, {"not-a-jwt", `"not-a-jwt"`, 1, lt2}, {"header-only", q(jwtHeader), 1, lt2},
+	{"nul-escape", `"\u0000"`, 1, lt2}, {"spaces", `"   "`, 1, lt2},
+	{"huge-without-dot", q(hugeGarbage), 1, lt2},
+	{"huge-payload-segment", q(jwtHeader + "." + hugeGarbage + ".sig"), 3, "id_token-payload-malformed"},
+	{"seven-segments", `"a.b.c.d.e.f.g"`, 7, "id_token-bad-base64"},
+	{"dots-1000", q(strings.Repeat(".", 1000)), 1001, "id_token-payload-malformed"},
+}
+
+// hostile shapes for fields that carry no part of the vouching (optional fields of token answers, userinfo
+// answers and id_token claims)
+var hostile = []pair{{"null", "null"}, {"number", "5"}, {"negative", "-1"}, {"float", "3600.5"}, {"exponent-overflow", "1e400"},
+	{"huge-integer", "99999999999999999999999"}, {"bool", "true"}, {"empty-string", `""`}, {"string", `"x"`}, {"numeric-string", `"3600"`},
+	{"huge-string", q(hugeGarbage[:1<<20])}, {"empty-array", "[]"}, {"array-of-null", "[null]"}, {"array-of-number", "[5]"},
+	{"array-of-strings", `["a","b"]`}, {"nested-array", `["a",{"b":[]}]`}, {"empty-object", "{}"}, {"nested-object", `{"a":{"b":"c"}}`},
+	{"absent", absent}, {"nul-escape", `"\u0000"`}}
+
+var optTokFields = []string{"token_type", "expires_in", "refresh_token", "scope", "sub"}
+var optUIFields = map[string][]string{
+	"okta":    {"sub", "name", "groups", "zoneinfo", "preferred_username", "username"},
+	"cognito": {"sub", "username", "name", "cognito:groups", "groups", "identities"},
+}
+var optClaims = []string{"iss", "aud", "sub", "iat", "exp", "nonce", "hd", "name"}
 
 // template lengths (every case of a provider has bodies of the same length, see mkIDs)
 func templateLens(prov string) (tok, ui int) {
@@ -290,24 +329,41 @@ func buildSpecs(prov string) []spec {
 	add("tok-fault", 1, 0, 0, 0)
 	add("tok-fault", 2, 0, 0, 0)
 	add("tok-fault", 3, 0, 0, 0)
-	if prov == "google" {
-		add("tok-slow", 0, 0, 0, 0)
-		for i := range rawIDT {
-			add("idt-raw", i, 0, 0, 0)
-		}
-		for n := 1; n <= 5; n++ {
-			for b := range b64Names {
-				for ev := range evNames {
-					for em := range emNames {
-						add("idt", n, b, ev, em)
-					}
+	// id_tokens: the full shape enumeration for EVERY provider (google reads the e-mail from it; for okta and
+	// cognito it is an additional field beside an otherwise valid, vouching answer)
+	for i := range rawIDT {
+		add("idt-raw", i, 0, 0, 0)
+	}
+	for n := 1; n <= 5; n++ {
+		for b := range b64Names {
+			for ev := range evNames {
+				for em := range emNames {
+					add("idt", n, b, ev, em)
 				}
 			}
-			for sh := 0; sh < nIDShapes; sh++ {
-				add("idt-shape", n, sh, 0, 0)
-			}
 		}
+		for sh := 0; sh < nIDShapes; sh++ {
+			add("idt-shape", n, sh, 0, 0)
+		}
+	}
+	for f := range optTokFields {
+		for h := range hostile {
+			add("opt-tok", f, h, 0, 0)
+		}
+	}
+	for f := range optClaims {
+		for h := range hostile {
+			add("opt-claim", f, h, 0, 0)
+		}
+	}
+	if prov == "google" {
+		add("tok-slow", 0, 0, 0, 0)
 		return s
+	}
+	for f := range optUIFields[prov] {
+		for h := range hostile {
+			add("opt-ui", f, h, 0, 0)
+		}
 	}
 	add("ui-slow", 0, 0, 0, 0)
 	for si := range statuses {
@@ -436,6 +492,12 @@ func build(prov string, sp spec, id ids) kase {
 	} else {
 		k.IDSegs = 3
 	}
+	// the e-mail inside generated id_tokens: google's vouching; for okta / cognito the decoy (nobody vouched for it
+	// through userinfo, so a session carrying it is a session for another e-mail)
+	idtEmail := id.email
+	if prov != "google" {
+		idtEmail = id.decoy
+	}
 	refuse := func(clause string) { k.Label, k.Clause = lRefuse, clause }
 	dont := func(zone string) { k.Label, k.Clause = lDontCare, zone }
 	faults := []string{faultDrop, faultShort, faultDrop, faultShort}
@@ -553,27 +615,34 @@ func build(prov string, sp spec, id ids) kase {
 		refuse("userinfo-connection-fault")
 		k.Dims = fmt.Sprintf("%s/%d", k.UI.Fault, sp.a)
 	case "idt-raw":
-		raw := rawIDT[sp.a]
-		k.Token.Body = obj(with(tps, "id_token", raw))
-		k.Dims = "id_token=" + strings.ReplaceAll(raw, absent, "absent")
-		k.IDSegs = -1
-		switch {
-		case sp.a <= 2 || sp.a == 13:
-			refuse("id_token-segments<2")
-			k.IDSegs = 0
-			if sp.a == 13 {
-				k.IDSegs = 1
-			}
-		case sp.a <= 6:
-			refuse("token-field-mistyped")
-		default:
-			// dots only / empty payload position: nothing decodable there
-			refuse("id_token-payload-malformed")
-			k.IDSegs = strings.Count(raw, ".") + 1
-		}
+		ri := rawIDT[sp.a]
+		k.Token.Body = obj(with(tps, "id_token", ri.raw))
+		k.Dims = "id_token=" + ri.name
+		k.IDSegs = ri.segs
+		refuse(ri.clause)
+	case "opt-tok":
+		f, h := optTokFields[sp.a], hostile[sp.b]
+		k.Token.Body = obj(with(tps, f, h.raw))
+		dont("optional-field-variant")
+		k.PClass = "token-field-" + f
+		k.Dims = f + "=" + h.k
+	case "opt-ui":
+		f, h := optUIFields[prov][sp.a], hostile[sp.b]
+		k.UI.Body = obj(with(ups, f, h.raw))
+		dont("optional-field-variant")
+		k.PClass = "userinfo-field-" + f
+		k.Dims = f + "=" + h.k
+	case "opt-claim":
+		f, h := optClaims[sp.a], hostile[sp.b]
+		P := payloadJSON(idtEmail, q(idtEmail), "true")
+		P = replaceClaim(P, f, h.raw)
+		k.Token.Body = obj(with(tps, "id_token", q(idToken(3, b64seg(0, P), sp.decoy, id))))
+		dont("optional-field-variant")
+		k.PClass = "id_token-claim-" + f
+		k.Dims = f + "=" + h.k
 	case "idt":
 		n, b, ev, em := sp.a, sp.b, sp.c, sp.d
-		seg := b64seg(b, payloadJSON(id.email, emRaw(em, id.email), evRaw(ev)))
+		seg := b64seg(b, payloadJSON(idtEmail, emRaw(em, idtEmail), evRaw(ev)))
 		k.Token.Body = obj(with(tps, "id_token", q(idToken(n, seg, sp.decoy, id))))
 		k.IDSegs = n
 		k.Dims = fmt.Sprintf("segments=%d base64=%s email=%s email_verified=%s others=%s", n, b64Names[b], emNames[em], evNames[ev], map[bool]string{false: "jwt-header+signature", true: "decoy-verified-payloads"}[sp.decoy])
@@ -593,7 +662,7 @@ func build(prov string, sp spec, id ids) kase {
 		}
 	case "idt-shape":
 		n := sp.a
-		P := payloadJSON(id.email, q(id.email), "true")
+		P := payloadJSON(idtEmail, q(idtEmail), "true")
 		var raw, name string
 		clause := "id_token-payload-malformed"
 		switch sp.b {
@@ -610,7 +679,7 @@ func build(prov string, sp spec, id ids) kase {
 		case 5:
 			raw, name = "", "empty-segment"
 		case 6:
-			raw, name = `{"email": `+id.email+`, "email_verified": true}`, "unquoted-email"
+			raw, name = `{"email": `+idtEmail+`, "email_verified": true}`, "unquoted-email"
 		case 7:
 			raw, name = P+"x", "trailing-garbage"
 		default:
@@ -624,10 +693,45 @@ func build(prov string, sp spec, id ids) kase {
 		}
 		refuse(clause)
 	}
+	if strings.HasPrefix(sp.kind, "idt") {
+		// class of the id_token by what google's reading of it must be
+		switch {
+		case k.Label == lRefuse:
+			k.PClass = k.Clause
+			if !strings.HasPrefix(k.PClass, "id_token-") {
+				k.PClass = "id_token-" + k.PClass
+			}
+		default:
+			k.PClass = "id_token-well-formed"
+		}
+		if prov != "google" {
+			// beside a valid, vouching userinfo answer: session or no session is unsettled, a crash or a session
+			// for another e-mail is not
+			k.Label, k.Clause, k.Email = lDontCare, "odd-id_token-beside-vouching-userinfo", id.email
+			if k.PClass == "id_token-well-formed" {
+				k.Label, k.Clause = lVouched, ""
+			}
+		}
+	}
 	if k.descKey == "" {
 		k.descKey = sp.kind + "|" + k.Dims
 	}
 	return k
+}
+
+// replaceClaim replaces (or, for absent, removes) a top-level claim of a payload built by payloadJSON; a claim
+// that payloadJSON does not emit is appended.
+func replaceClaim(P, claim, raw string) string {
+	dec := json.NewDecoder(strings.NewReader(P))
+	dec.Token()
+	var ps []pair
+	for dec.More() {
+		kt, _ := dec.Token()
+		var v json.RawMessage
+		dec.Decode(&v)
+		ps = append(ps, pair{kt.(string), string(v)})
+	}
+	return obj(with(ps, claim, raw))
 }
 
 // ---- random byte-level mutations of valid answers
@@ -702,7 +806,19 @@ func buildMutation(prov string, r *rand.Rand, id ids) kase {
 		U := obj(uiPairs(prov, id))
 		k.UI = &ans{Status: 200, Body: U}
 		switch x := r.Intn(100); {
-		case x < 35:
+		case x < 10:
+			target = "id_token-payload-json"
+			var P string
+			P, ops = mutate(r, payloadJSON(id.decoy, q(id.decoy), "true"))
+			k.Token.Body = obj(with(tps, "id_token", q(idToken(3, b64seg(0, P), r.Intn(2) == 0, id))))
+		case x < 20:
+			target = "id_token-string"
+			idt := idToken(3, b64seg(0, payloadJSON(id.decoy, q(id.decoy), "true")), false, id)
+			at := strings.Index(V, idt)
+			var m string
+			m, ops = mutate(r, idt)
+			k.Token.Body = V[:at] + m + V[at+len(idt):]
+		case x < 40:
 			target = "token-body"
 			k.Token.Body, ops = mutate(r, V)
 		case x < 70:
